@@ -163,6 +163,9 @@ func (c *client) loop() {
 				ActionMnemonic:          pick(t, mnemonics),
 				TargetId:                "//t",
 			}
+			if w.mixedDepth {
+				rm.TargetId = pick(t, []string{"//t", "//t", "//depth1", "//depth2"})
+			}
 			s.keys = []string{rm.CorrelatedInvocationsId, rm.ToolInvocationId, rm.ActionMnemonic}
 			s.priority = pick(t, priorities)
 			if w.fair && t.Bool(3, 4) {
@@ -362,7 +365,10 @@ func (wa *workerActor) chooseState(req *remoteworker.SynchronizeRequest) *remote
 	}
 	d := wa.executing
 	if w.honest {
-		return executingState(d, wa.completion(true))
+		// In the policy runs (C04) a well-behaved worker still reports
+		// genuine failures now and then, so that retries on the largest
+		// size class re-enter the queues under the policy's eyes.
+		return executingState(d, wa.completion(!(w.fair && !w.draining && t.Bool(1, 4))))
 	}
 	restart := 2
 	if w.flaky {
